@@ -188,6 +188,21 @@ def sx(schema):
     if unions:
         yield raw("invalid-extend", "wrong-kind-union-on-object", "extend union %s = %s" % (o.name, o.name))
     yield raw("invalid-extend", "field-repeated", "extend type %s { %s: Int }" % (o.name, o.fields[0].name))
+    # the invalid extension among several valid ones, of the same and of another type, at every position
+    others = [t for t in objs if t.name != o.name]
+    if others:
+        bad = "extend type %s { %s: Int }" % (o.name, o.fields[0].name)
+        ok_same = ["extend type %s { zzs%d: Int }" % (o.name, k) for k in range(2)]
+        ok_other = "extend type %s { zzo: Int }" % others[0].name
+        for label, seq in (("first-of-T-U-T", [bad, ok_other, ok_same[0]]), ("last-of-T-U-T", [ok_same[0], ok_other, bad]),
+                           ("middle-of-T-T-T", [ok_same[0], bad, ok_same[1]]), ("first-of-T-U-T-U", [bad, ok_other, ok_same[0], "extend type %s { zzo2: Int }" % others[0].name]),
+                           ("middle-of-U-T-U", [ok_other, bad, "extend type %s { zzo2: Int }" % others[0].name])):
+            yield raw("invalid-extend", "field-repeated|" + label, *seq)
+        for t in objs:
+            if t.interfaces and t.name != others[0].name:
+                badi = "extend type %s implements %s" % (t.name, t.interfaces[0])
+                yield raw("invalid-extend", "interface-repeated|first-of-T-U-T", badi, ok_other, "extend type %s { zzi: Int }" % t.name)
+                break
     for t in objs:
         if t.interfaces:
             yield raw("invalid-extend", "interface-repeated", "extend type %s implements %s" % (t.name, t.interfaces[0]))
